@@ -253,7 +253,8 @@ ASSUME = ['inquiries of the pool are hashable through their canonical content (C
 
 
 def main(argv):
-    return run_check('C11', [CachedGuardStream()], argv, trusted_base=TRUSTED, assumptions=ASSUME)
+    return run_check('C11', [CachedGuardStream()], argv, trusted_base=TRUSTED, assumptions=ASSUME,
+                     translated=('observable', 'guard'))
 
 
 if __name__ == '__main__':
